@@ -7,10 +7,20 @@ size-prefixed templates, sizeof and sizeref members with their conditionals (siz
 of a byte array), enum conditionals before and
 after their discriminant, discriminated factories with byte-sized aligned arrays, fill arrays (aligned
 `not pad_last` and plain, the plain ones with and without sort key) and counted arrays of abstract elements.
+
+Outside the dialect (decision recorded in lean/SymbolVerif/Proofs/Codec/STATUS.md): a size member not called `size`: the
+window is right since c797a2816, but the class keeps a dead `total_size` attribute that to_json/__str__ show -- excluded
+by `storedOk` (RENAMED_SIZE_MEMBERS stays False).
 """
 
 INT_TYPES = ['uint8', 'uint16', 'uint32', 'uint64', 'int8', 'int16', 'int32', 'int64']
 UNSIGNED = ['uint8', 'uint16', 'uint32', 'uint64']
+
+# `@size(total_size)`: the emitted text (window of `_deserialize`, accessors, `instance._total_size = total_size`) is modelled and
+# compares equal, but the generated class then *stores* the renamed size member as a dead attribute (`filter_size_if_first` goes by
+# the name `size`): `to_json()` / `__str__` print it (stale: 0 on a fresh object), and the object model (`Val.struct`, Render.lean
+# `toJson` / `toStr`) has no such member. Switch on once the object model follows (or the generator filters by `@size`).
+RENAMED_SIZE_MEMBERS = False
 
 
 class SchemaGen:
@@ -286,7 +296,9 @@ class SchemaGen:
 		base = self.fresh('Entity')
 		two_part = self.rng.random() < 0.6
 		# the size member of the abstract struct under another name than `size` (its local in `_deserialize` is then that name)
-		size_name = self.rng.choice(['size', 'size', 'total_size', 'entity_size']) if self.variant is None else ['size', 'total_size', 'size', 'entity_size'][self.variant % 4]
+		size_name = 'size'
+		if RENAMED_SIZE_MEMBERS:
+			size_name = self.rng.choice(['size', 'size', 'total_size', 'entity_size']) if self.variant is None else ['size', 'total_size', 'size', 'entity_size'][self.variant % 4]
 		if 'size' != size_name:
 			self.features.add('size-member-renamed')
 		lines = [f'@size({size_name})', '@initializes(version, ENTITY_VERSION)' if two_part else None, '@initializes(tag, ENTITY_TAG)',
